@@ -314,7 +314,7 @@ def run(ctx):
     ctx.ob('4e0 column-placeholder', 'anchor', '-', 'the three file-name formats print the column with one common placeholder format, followed by "_"',
            len(colsig) == 1 and all(len(w[1]) > 2 and w[1][2][0] == 'lit' and w[1][2][1].startswith('_') for w in writers.values()), str(colsig))
     TESTS = ['re:str>?::starts_with', 're:str>?::strip_prefix', 're:str>?::contains', 're:str>?::ends_with']
-    for user in ('column::Column::drop_files', 'migration::deplace_column'):
+    for user in ('column::Column::drop_files', shared.column_file_mover(F)):
         ub = F.body(user)
         if ub is None:
             continue
